@@ -37,24 +37,26 @@ class JobCtx:
         self.t0 = time.time()
         self.obligations = 0; self.discharged = 0; self.queries = 0; self.solver_s = 0.0
         self.cex = []; self.inconclusive = []; self.samples = []; self.reached = 0; self.panics = {}
-        self.covers = set(); self.paths = 0; self.notes = []; self.validated = 0; self.witnesses = []
+        self.covers = set(); self.paths = 0; self.notes = []; self.validated = 0; self.witnesses = []; self.fam = {}
     COUNTERS = ('obligations', 'discharged', 'queries', 'solver_s', 'reached', 'paths', 'validated')
     def _reset_counters(self):
         for k in self.COUNTERS: setattr(self, k, 0)
-        self.cex = []; self.inconclusive = []; self.samples = []; self.panics = {}; self.covers = set(); self.notes = []; self.witnesses = []
+        self.cex = []; self.inconclusive = []; self.samples = []; self.panics = {}; self.covers = set(); self.notes = []; self.witnesses = []; self.fam = {}
         ex = self.ex
         for k in ex.stats: ex.stats[k] = 0
         ex.covers = set(); ex.used_fns = set(); ex.used_models = set(); ex.abstracted = 0
     def _partial(self):
         ex = self.ex
         d = dict((k, getattr(self, k)) for k in self.COUNTERS)
-        d.update(witnesses=self.witnesses, cex=self.cex, inconclusive=self.inconclusive, samples=self.samples, panics=self.panics, covers=self.covers | ex.covers, notes=self.notes,
+        d.update(fam=self.fam, witnesses=self.witnesses, cex=self.cex, inconclusive=self.inconclusive, samples=self.samples, panics=self.panics, covers=self.covers | ex.covers, notes=self.notes,
                  stats=dict(ex.stats), used_fns=ex.used_fns, used_models=ex.used_models, abstracted=ex.abstracted)
         return d
     def _merge(self, d):
         ex = self.ex
         for k in self.COUNTERS: setattr(self, k, getattr(self, k) + d[k])
         self.witnesses = (self.witnesses + d.get('witnesses', []))[:4]
+        for k, (a, b) in d.get('fam', {}).items():
+            x = self.fam.setdefault(k, [0, 0]); x[0] += a; x[1] += b
         self.cex += d['cex']; self.inconclusive += d['inconclusive']; self.samples = (self.samples + d['samples'])[:3]
         for k, v in d['panics'].items(): self.panics[k] = self.panics.get(k, 0) + v
         self.covers |= d['covers']; self.notes += d['notes']
@@ -117,12 +119,13 @@ class JobCtx:
     def prove(self, pc, formula, clause, mk_cex=None):
         """obligation: pc ⇒ formula.  Returns True if discharged; records a counterexample otherwise."""
         self.obligations += 1
-        if formula is True: self.discharged += 1; return True
+        fam = self.fam.setdefault(clause.split(':')[0] if ':' in clause else '', [0, 0]); fam[0] += 1
+        if formula is True: self.discharged += 1; fam[1] += 1; return True
         if isinstance(formula, bool): formula = z3.BoolVal(formula)
         f = z3.simplify(formula)
-        if z3.is_true(f): self.discharged += 1; return True
+        if z3.is_true(f): self.discharged += 1; fam[1] += 1; return True
         m = self.sat(pc, z3.Not(f))
-        if m is None: self.discharged += 1; return True
+        if m is None: self.discharged += 1; fam[1] += 1; return True
         if mk_cex is not None:
             c = mk_cex(m)
             if c is not None:
@@ -150,7 +153,7 @@ class JobCtx:
                     steps=ex.stats['steps'], calls=ex.stats['calls'], obligations=self.obligations, discharged=self.discharged,
                     closing_queries=self.queries, closing_solver_s=round(self.solver_s, 2), cex=self.cex, inconclusive=self.inconclusive,
                     samples=self.samples, reached=self.reached, panics=self.panics, covers=sorted(self.covers | ex.covers),
-                    witnesses=self.witnesses, fns=sorted(ex.used_fns), models=sorted(ex.used_models), wall_s=round(time.time() - self.t0, 2), notes=self.notes,
+                    fam=self.fam, witnesses=self.witnesses, fns=sorted(ex.used_fns), models=sorted(ex.used_models), wall_s=round(time.time() - self.t0, 2), notes=self.notes,
                     abstracted_products=ex.abstracted, validated=self.validated)
 
 _current_child_ctx = None
@@ -255,7 +258,7 @@ def run_check(prop, tier, seed, only=None, nproc=None):
     for x in mism: inconclusive.append('ENGINE-DISAGREEMENT (translator validation): symbolic result differs from the native run: ' + x[:500])
     # vacuity: every job must have reached its assertions on at least one feasible path
     for r in results:
-        if not r.get('inconclusive') and r.get('obligations', 0) == 0:
+        if not r.get('inconclusive') and r.get('obligations', 0) == 0 and not r.get('allow_empty'):
             inconclusive.append('%s: vacuous (no obligation reached)' % r['name'])
     required = set(getattr(mod, 'REQUIRED_COVERS', {}).get(tier, []))
     got = set(c for r in results for c in r.get('covers', []))
